@@ -81,13 +81,25 @@ def configurable_cases(tier, seed):
                     seen.append(d)
                     decl += d.decl() + '\n'
         src = 'script;\n\n' + decl + 'configurable {\n' + ''.join(f'    {n}: {t.sway()} = {c[0]},\n' for (n, t), c in zip(cfg, consts)) + '}\n\n'
-        src += 'fn main(i: u64) {\n'
+        head = src
+        plain = head + 'fn main(i: u64) {\n'
         for k, (n, t) in enumerate(cfg):
-            src += f'    {"if" if k == 0 else "} else if"} i == {k} {{\n        log({n});\n'
-        src += '    }\n}\n'
-        for j, (nj, tj) in enumerate(cfg):
+            plain += f'    {"if" if k == 0 else "} else if"} i == {k} {{\n        log({n});\n'
+        plain += '    }\n}\n'
+        # same program, but main also uses wide local constants and a string literal, which put more
+        # (non-configurable) entries and pointer words into the data section
+        rich = head + 'fn main(i: u64) {\n'
+        rich += f'    let wide1: b256 = {lit_sway(B256T, rng.randrange(1 << 256))};\n    let wide2: u256 = {lit_sway(U256, rng.randrange(1 << 255))};\n'
+        rich += '    let text: str[11] = __to_str_array("hello world");\n    let big: u64 = 0x123456789abcdef0;\n'
+        for k, (n, t) in enumerate(cfg):
+            rich += f'    {"if" if k == 0 else "} else if"} i == {k} {{\n        log({n});\n'
+        rich += '    } else if i == 100 {\n        log(wide1);\n    } else if i == 101 {\n        log(wide2);\n    } else if i == 102 {\n        log(text);\n    } else if i == 103 {\n        log(big);\n    }\n}\n'
+        for variant, src in (('plain', plain), ('rich', rich)):
+          for j, (nj, tj) in enumerate(cfg):
             for i in sorted({j, (j + 1) % len(cfg)}):
-                c = Case(f'cfg{si}_patch{nj}_read{cfg[i][0]}', src, note=f'configurable {nj}: {tj.sway()} patched with symbolic bytes at the ABI offset; main({i}) logs {cfg[i][0]}',
+                if variant == 'rich' and tier == 'quick' and i != j and j % 2 == 1:
+                    continue
+                c = Case(f'cfg{si}{"" if variant == "plain" else "r"}_patch{nj}_read{cfg[i][0]}', src, note=f'[{variant}] configurable {nj}: {tj.sway()} patched with symbolic bytes at the ABI offset; main({i}) logs {cfg[i][0]}',
                          tags=['configurable'])
                 c.needs_built = True
                 c.set_index = si
@@ -110,7 +122,7 @@ def configurable_cases(tier, seed):
                 c.make_inputs, c.spec = make_inputs, spec
                 c.sample = {'configurables': [(n, t.sway()) for n, t in cfg], 'patched': nj, 'read': cfg[i][0]}
                 # one package per set: same name for all cases of the set so the build is shared
-                c.pkg_name = (lambda si=si: f'ccfg{si}')
+                c.pkg_name = (lambda si=si, variant=variant: f'ccfg{si}{variant}')
                 cases.append(c)
     return cases
 
